@@ -188,11 +188,16 @@ def pytorch_stft_frame_computer(
     num_frames = max(0, (sig_len + frame_shift // 2) // frame_shift)
     total_len = (num_frames - 1) * frame_shift - pad_left + frame_length
     pad_right = max(0, total_len - sig_len)
-    if pad_left or pad_right:
-        # symmetric padding
+    while pad_left > 0 or pad_right > 0:
+        # symmetric padding. Like numpy.pad, reflect again when the padding is longer
+        # than the (short) signal
+        cur_len = sig.size(0)
+        cur_left, cur_right = min(pad_left, cur_len), min(pad_right, cur_len)
         sig = torch.cat(
-            [sig[:pad_left].flip(0), sig, sig[sig_len - pad_right :].flip(0)]
+            [sig[:cur_left].flip(0), sig, sig[cur_len - cur_right :].flip(0)]
         )
+        pad_left -= cur_left
+        pad_right -= cur_right
     sig = sig.as_strided((num_frames, frame_length), (frame_shift, 1))
     y: List[torch.Tensor] = []
     if include_energy:
